@@ -50,7 +50,9 @@ RULE = ("three families: (1) _ip_address_in_subnet on one random 4-byte base × 
         "with prefix lengths from the byte-boundary grid, one bit flipped just inside or just outside the prefix, decoys, "
         "malformed texts that a lenient parser would read as /0 or as the client, wrongly typed members; (3) the same "
         "material through the three real handlers × key/list/both/none × lookup mode × find/get_data results and failures "
-        "× both action options × template on/off × file present/missing/directory/untranslatable. non-trivial = restriction "
+        "× both action options × template on/off × file present/missing/directory/untranslatable; a third of them after one or "
+        "two earlier requests on the same handler object (same client while the stored data admitted it, another client, "
+        "nothing found). non-trivial = restriction "
         "configured (handlers) or ≥ 1 entry (contains); distinct by SHA-1 of the case")
 BUDGET_S = {"quick": 60, "thorough": 1200}
 ENV = "c05"
@@ -229,6 +231,26 @@ def _handler_cases(rng, tier, mult):
                 case["body"] = "new-text"
             elif cfg["action"] == "set_json_value_from_request_body":
                 case["body"] = '{"v": "new"}'
+        # earlier requests on the same handler object: (a) the same client while the stored data admitted it,
+        # (b) another client with the same data, (c) the same client while nothing was found
+        if rng.random() < 0.35:
+            before = []
+            reads = K.client_readings(client)
+            for _ in range(rng.choice([1, 1, 2])):
+                f = rng.random()
+                if f < 0.6 and key and reads:
+                    fam, b = rng.choice(reads)
+                    cur = K.S(K.network_for(rng, fam, b, member=True))
+                    for p in reversed(key.split(":")):
+                        cur = {"l": [cur], "k": "list"} if p.isdigit() else {"d": [[p, cur]]}
+                    before.append({"client": client, "world": {"find": "found", "file": "present", "data": cur}})
+                elif f < 0.85:
+                    before.append({"client": K.rand_client(rng)[0], "world": dict(world)})
+                else:
+                    before.append({"client": client, "world": dict(world, find="not_found")
+                                   if handler != "sqlite" else dict(world)})
+            case["before"] = before
+            case["_meta"]["before"] = len(before)
         yield case
 
 
@@ -471,6 +493,15 @@ def shrink(case):
         return
     if c0["kind"] != "handler":
         return
+    if c0.get("before"):
+        c = copy.deepcopy(c0)
+        del c["before"]
+        yield c
+        for i in range(len(c0["before"])):
+            if len(c0["before"]) > 1:
+                c = copy.deepcopy(c0)
+                c["before"] = _without(c["before"], i)
+                yield c
     lst = c0["cfg"].get("list")
     if lst and lst["coll"] != "str":
         for i in range(len(lst["entries"])):
